@@ -482,6 +482,11 @@ func (c *connection) waitRead(n int) (err error) {
 	for c.inputBuffer.Len() < n {
 		switch c.status(closing) {
 		case poller:
+			// the last bytes may have been buffered after the length test above and before the peer's close
+			// was recorded: they are there, the read succeeds
+			if c.inputBuffer.Len() >= n {
+				return nil
+			}
 			return Exception(ErrEOF, "wait read")
 		case user:
 			return Exception(ErrConnClosed, "wait read")
@@ -508,7 +513,10 @@ func (c *connection) waitReadWithTimeout(n int, timeout time.Duration) (err erro
 		switch c.status(closing) {
 		case poller:
 			// cannot return directly, stop timer first!
-			err = Exception(ErrEOF, "wait read")
+			// (the last bytes may have been buffered after the length test above: then the read succeeds)
+			if c.inputBuffer.Len() < n {
+				err = Exception(ErrEOF, "wait read")
+			}
 			goto RET
 		case user:
 			// cannot return directly, stop timer first!
